@@ -23,8 +23,8 @@ RULE = ("histories of 1..3 instants with 1..3 error sources each (handler error 
         "monitored block task, bare simtask.cancel(), shutdown() in a task, SIGTERM and failing/ending supporting "
         "coroutines in run() mode), optionally abort() before the start or a failing synchronous init routine, "
         "optionally with blocks whose async init / state restoration / stop / stop_async fail (harmless); all "
-        "orderings of all pairs of source kinds in one instant are enumerated, triples and multi-instant histories "
-        "are random; distinct = hash of (lines, trace); non-trivial = at least one fatal source fired")
+        "orderings of all pairs of source kinds in one instant are enumerated (thorough: all ordered triples and quadruples in one instant and all [a],[b,c] two-instant histories as well), "
+        "multi-instant histories are random; distinct = hash of (lines, trace); non-trivial = at least one fatal source fired")
 ASSUMPTIONS = [
     "at most one raising evaluation is armed per instant (with two, the simulator's choice depends on set order)",
     "a second external cancellation during clean-up is excluded (DESIGN.md section 6)",
@@ -108,7 +108,17 @@ def scenarios(rng, tier):
             yield mk(mode, [['paramErr', 'unknownEvt']], harmless=h)
             yield mk(mode, [['handlerErr']], harmless=h)
             yield mk(mode, [['abortC']], harmless=h)
-    n = 600 if tier == 'quick' else 12000
+    if tier == 'thorough':
+        # every ordered triple of source kinds in one instant, in both modes
+        for mode, kinds in (('forever', kinds_f), ('run', kinds_r)):
+            for rep in (3, 4):
+                for tup in itertools.product(kinds, repeat=rep):
+                    if _valid([list(tup)], mode):
+                        yield mk(mode, [list(tup)])
+            for a, b, c in itertools.product(kinds, repeat=3):      # two instants: [a] then [b, c]
+                if _valid([[a], [b, c]], mode):
+                    yield mk(mode, [[a], [b, c]])
+    n = 600 if tier == 'quick' else 60000
     for _ in range(n):
         mode = rng.choice(['forever', 'run'])
         kinds = kinds_r if mode == 'run' else kinds_f
